@@ -1,4 +1,5 @@
 import PynnVerif.Proofs.Search
+import PynnVerif.Proofs.SearchReach
 import Mathlib.Data.Nat.Basic  -- `LinearOrder Nat` for the concrete examples
 
 /-!
@@ -358,6 +359,21 @@ example :
     (r.toList.map (fun e => (translateOld #[1, 0] e.idx, e.prio)))[2]? = some (0, 100) ∧
     (answerRow #[1, 0] r).toList = [(1, 1), (0, 2), (-1, 100)] := by decide +kernel
 
+/-- **Answers are reachable from the seeds.**  Every filled slot of the result names a vertex that is one of the
+leaf candidates, one of the random candidates actually drawn, or reachable from one of them along edges of the
+search graph (`Reach`).  (What a search can return at all is bounded by the component structure of the graph —
+"truth, not recall".) -/
+theorem search_answers_reachable (top : P) (htop : ∀ x : P, x ≤ top) (scale : P → P) (n k nNeighbors : Nat)
+    (indptr indices : Array Nat) (dq : Nat → P) (leaf draws : List Nat) (fuel : Nat)
+    (hin : InputsOk n k indptr indices leaf draws) :
+    ∀ e ∈ (search top scale n k nNeighbors indptr indices dq leaf draws fuel).1.heap, 0 ≤ e.idx →
+      Reach indptr indices (leaf ++ draws.take (min k nNeighbors - leaf.length)) e.idx.toNat := by
+  intro e he h0
+  have hs := search_sound top htop scale n k nNeighbors indptr indices dq leaf draws fuel hin
+  simp only at hs
+  obtain ⟨_, _, hreal, _⟩ := hs
+  exact (search_rinv top scale n k nNeighbors indptr indices dq leaf draws fuel).vis _ (hreal e he h0).2.1
+
 /-! ## Non-vacuity: a concrete run
 
 Path graph `0 – 1 – 2 – 3 – 4` plus the isolated pair `5 – 6`; distances `9 7 5 3 1 0 8`
@@ -375,5 +391,12 @@ example :
 /-- … and its inputs satisfy the hypotheses of the theorems. -/
 example : InputsOk 7 2 #[0, 1, 3, 5, 7, 8, 9, 10] #[1, 0, 2, 1, 3, 2, 4, 3, 6, 5] [0] [1, 6] :=
   ⟨by decide, by decide, by decide, by decide, by decide, by decide, by decide⟩
+
+/-- `Reach` on that graph: vertex 4 (returned) is reachable from the seeds `[0, 1]` along `1 → 2 → 3 → 4`;
+the isolated pair `5 – 6` is not adjacent to anything on the path (`nbrs` of the path vertices never contain 5). -/
+example : Reach #[0, 1, 3, 5, 7, 8, 9, 10] #[1, 0, 2, 1, 3, 2, 4, 3, 6, 5] [0, 1] 4 :=
+  .edge (.edge (.edge (.seed (by decide)) (by decide : 2 ∈ nbrs _ _ 1)) (by decide : 3 ∈ nbrs _ _ 2))
+    (by decide : 4 ∈ nbrs _ _ 3)
+example : ∀ u < 5, 5 ∉ nbrs #[0, 1, 3, 5, 7, 8, 9, 10] #[1, 0, 2, 1, 3, 2, 4, 3, 6, 5] u := by decide
 
 end Pynn.C02
